@@ -8,7 +8,7 @@ import random as _random
 import numpy as np
 
 PROP = "C11"
-CASES = {"quick": 2500, "thorough": 60000}
+CASES = {"quick": 2500, "thorough": 20000}
 CASE_TIMEOUT = 30
 REQUIRED = ["op:marginalize", "op:chain", "op:condition", "op:joint", "op:mixture", "op:and", "op:expectation",
             "op:softmax", "op:normalize", "samples_drawn", "seeded_sequences_compared", "kind:table",
@@ -220,7 +220,7 @@ def run_case(case, rng):
         same(case, sm2, as_dict(sm1), "softmax:not-shift-invariant", f"shift={shift}", tol=tol)
 
     # ---- sampling ---------------------------------------------------------------------------------------
-    ndraw = 2000 if thorough else 250
+    ndraw = 1000 if thorough else 250
     for d, r, k in ((d1, r1, k1), (d2, r2, k2), (d3, r3, k3)):
         seed = rng.randrange(2 ** 32)
         ra, rb = _random.Random(seed), _random.Random(seed)
